@@ -16,8 +16,8 @@ variable {α : Type} [Field α] [LinearOrder α] [IsStrictOrderedRing α] {sqrt 
 set_option maxHeartbeats 4000000 in
 /-- `Vec4<T>::length()` (real body, `lengthTiny` inlined, 257 paths) is `sqrt (x² + y² + z² + w²)` for EVERY
 vector and every threshold `tmin`. -/
-theorem V4_length_eq (tmin : α) (hsqrt : ∀ x, 0 ≤ x → sqrt x * sqrt x = x ∧ 0 ≤ sqrt x) (a : V4 α) :
-    Gen.V4.length tmin sqrt a = sqrt (a.x * a.x + a.y * a.y + a.z * a.z + a.w * a.w) := by
+theorem V4_length_eq (tmin tmax : α) (hsqrt : ∀ x, 0 ≤ x → sqrt x * sqrt x = x ∧ 0 ≤ sqrt x) (a : V4 α) :
+    Gen.V4.length tmin tmax sqrt a = sqrt (a.x * a.x + a.y * a.y + a.z * a.z + a.w * a.w) := by
   obtain ⟨x, y, z, w⟩ := a
   simp (config := { maxSteps := 10000000 }) only [Gen.V4.length]
   have hS0 : 0 ≤ x * x + y * y + z * z + w * w :=
@@ -30,10 +30,10 @@ theorem V4_length_eq (tmin : α) (hsqrt : ∀ x, 0 ≤ x → sqrt x * sqrt x = x
         (le_antisymm (by linarith) (by linarith)) (by ring))
     | (refine scaled_div hsqrt (lt_of_le_of_ne' (by linarith) (by assumption)) hS0 (by ring))
 
-theorem V4_length_sq (tmin : α) (hsqrt : ∀ x, 0 ≤ x → sqrt x * sqrt x = x ∧ 0 ≤ sqrt x) (a : V4 α) :
-    Gen.V4.length tmin sqrt a * Gen.V4.length tmin sqrt a = a.x * a.x + a.y * a.y + a.z * a.z + a.w * a.w ∧
-      0 ≤ Gen.V4.length tmin sqrt a := by
-  rw [V4_length_eq tmin hsqrt a]
+theorem V4_length_sq (tmin tmax : α) (hsqrt : ∀ x, 0 ≤ x → sqrt x * sqrt x = x ∧ 0 ≤ sqrt x) (a : V4 α) :
+    Gen.V4.length tmin tmax sqrt a * Gen.V4.length tmin tmax sqrt a = a.x * a.x + a.y * a.y + a.z * a.z + a.w * a.w ∧
+      0 ≤ Gen.V4.length tmin tmax sqrt a := by
+  rw [V4_length_eq tmin tmax hsqrt a]
   exact hsqrt _ (add_nonneg (add_nonneg (add_nonneg (mul_self_nonneg _) (mul_self_nonneg _)) (mul_self_nonneg _))
     (mul_self_nonneg _))
 
